@@ -346,7 +346,100 @@ func runC19(r *Run) {
 				lit = s
 			}
 		}
-		r.need(idx != nil, "New locates the wildcard with strings.Index(entry, literal containing '*')")
+		if idx == nil {
+			// the same split written with strings.Cut(entry, "://*."): before = the scheme, after = the host behind the `.`;
+			// the position of the wildcard is len(before) + (offset of '*' in the literal)
+			var cut *ssa.Call
+			for _, c := range callsMatching(f, false, nameIs("strings.Cut")) {
+				if s, ok := constString(asConst(c.Common.Args[1])); ok && strings.Contains(s, "*") {
+					cut, _ = c.Instr.(*ssa.Call)
+					lit = s
+				}
+			}
+			if cut != nil {
+				g := cut.Parent()
+				star := strings.IndexByte(lit, '*')
+				noStar := lit[:star] + lit[star+1:]
+				if !(star+1 < len(lit) && lit[star+1] == '.') {
+					r.bad("New:wildcard-marker-includes-the-label-separator", r.pos(cut), fmt.Sprintf("a wildcard entry is recognised by %q, which does not include the `.` that follows the `*`: `https://*example.com` is accepted as an entry and its suffix `example.com` allows https://evilexample.com", lit))
+					return
+				}
+				r.ok("New:wildcard-marker-includes-the-label-separator", r.pos(cut), fmt.Sprintf("wildcard entries are recognised by %q: the wildcard stands for whole labels", lit))
+				var before ssa.Value
+				for _, u := range *cut.Referrers() {
+					if e, ok := u.(*ssa.Extract); ok && e.Index == 0 {
+						before = e
+					}
+				}
+				// offset of a bound relative to len(before)
+				offsetOf := func(v ssa.Value) (int64, bool) {
+					isLenBefore := func(x ssa.Value) bool {
+						c, ok := stripValue(x).(*ssa.Call)
+						if !ok {
+							return false
+						}
+						bi, ok := c.Call.Value.(*ssa.Builtin)
+						return ok && bi.Name() == "len" && before != nil && c.Call.Args[0] == before
+					}
+					v = stripValue(v)
+					if isLenBefore(v) {
+						return 0, true
+					}
+					if bo, ok := v.(*ssa.BinOp); ok && bo.Op == token.ADD {
+						if k, ok := constInt(asConst(bo.Y)); ok && isLenBefore(bo.X) {
+							return k, true
+						}
+						if k, ok := constInt(asConst(bo.X)); ok && isLenBefore(bo.Y) {
+							return k, true
+						}
+					}
+					return 0, false
+				}
+				n := 0
+				var bad []string
+				for _, fr := range fieldRefs(g) {
+					if !fr.Write || !strings.HasSuffix(fr.Name, "subdomain.prefix") && !strings.HasSuffix(fr.Name, "subdomain.suffix") {
+						continue
+					}
+					sl, ok := stripValue(fr.Val).(*ssa.Slice)
+					if !ok {
+						bad = append(bad, r.pos(fr.Instr)+": the stored part is not a cut of the normalised entry")
+						continue
+					}
+					bound, which := sl.High, "prefix"
+					if strings.HasSuffix(fr.Name, ".suffix") {
+						bound, which = sl.Low, "suffix"
+					}
+					n++
+					c, ok := offsetOf(bound)
+					switch {
+					case bound == nil || !ok:
+						bad = append(bad, fmt.Sprintf("%s: the stored %s is cut at a position that is not derived from where the wildcard was found", r.pos(sl), which))
+					case int(c) != star:
+						bad = append(bad, fmt.Sprintf("%s: the stored %s is cut at len(before)+%d, the wildcard stood at len(before)+%d: the prefix no longer ends with the scheme separator / the suffix no longer starts at the `.`", r.pos(sl), which, c, star))
+					}
+				}
+				// the entry is put together again without the `*` and nothing else missing
+				okJoin := false
+				for _, b := range g.Blocks {
+					for _, in := range b.Instrs {
+						if bo, ok := in.(*ssa.BinOp); ok && bo.Op == token.ADD {
+							if str, ok := constString(asConst(bo.Y)); ok && str == noStar && stripValue(bo.X) == before {
+								okJoin = true
+							}
+						}
+					}
+				}
+				if !okJoin {
+					bad = append(bad, "the entry is not reassembled as before + "+fmt.Sprintf("%q", noStar)+" + after")
+				}
+				r.check(len(bad) == 0, "New:wildcard-split-offsets", r.pos(cut), "prefix and suffix are cut at the wildcard's position in the reassembled entry",
+					"the stored prefix / suffix of a wildcard entry do not meet at the wildcard's position: `https://*.example.com` then also allows look-alike hosts or another scheme ("+strings.Join(bad, "; ")+")")
+				r.atLeast("wildcard split offsets", n, 2)
+				return
+			}
+		}
+		r.need(idx != nil, "New locates the wildcard with strings.Index(entry, literal containing '*') or strings.Cut")
 		f = idx.Parent() // New itself, or the helper the parse loop was moved into
 		star := strings.IndexByte(lit, '*')
 		noStar := lit[:star] + lit[star+1:]
